@@ -1,4 +1,5 @@
 import XalanModel.C16.Sort
+import XalanModel.C16.Position
 import Driver.Util
 /-
 xm_c16: the sort model behind the line protocol.
@@ -115,6 +116,14 @@ def Case.env (c : Case) : Env Nat where
     | .txt s => s
     | .num _ => []
 
+/-- what the body prints, computed through the context-list stack with its position cache: for every node of the
+sorted list an inner loop over its preceding siblings and itself (document order, so the cache last holds the node's
+INNER position), then position() and last() with nothing in between (Props.C16.body_position_after_inner) -/
+def processViaStack (sorted : List Nat) : List (Nat × Nat × Nat) :=
+  sorted.map fun x =>
+    let vals := posRun posStep ⟨[sorted], none⟩ (bodyOps (List.range (x + 1)) x)
+    (x, vals.getD (vals.length - 2) 0, vals.getD (vals.length - 1) 0)
+
 def showTriples (l : List (Nat × Nat × Nat)) : String :=
   if l.isEmpty then "-" else ",".intercalate (l.map fun (i, p, n) => s!"{i}:{p}:{n}")
 
@@ -149,7 +158,9 @@ def doSort (st : Sorter Nat) (c : Case) : Sorter Nat × String :=
         let verdict := specVerdict (fun a b => specCompare env keys 0 a b) c.n sorted
         -- the libstdc++-shaped algorithm must agree as well (Props.C16.libStableSort_contract)
         let lib := sortNodesLib env keys nodes
-        (st', s!"out {showTriples (process sorted)} evals={evals} pure={if pure = sorted && lib = sorted then "same" else "DIFF"} spec={verdict}")
+        -- cubic in the list length: only for lists up to 60 nodes
+        let viaStack := if c.n ≤ 60 then processViaStack sorted else process sorted
+        (st', s!"out {showTriples viaStack} evals={evals} pure={if pure = sorted && lib = sorted && viaStack = process sorted then "same" else "DIFF"} spec={verdict}")
   else
     (st, s!"out {showTriples (process nodes)} evals=0 pure=same spec=ok")
 
